@@ -7,3 +7,4 @@ git -C /repo apply /verif/seeded/$m/patch.diff || { echo "patch does not apply";
 ./check $c --tier quick 2>&1 | tail -${TAILN:-5}
 git -C /repo checkout -- .
 rm -f /verif/replays/$c-*.json
+git -C "$(pwd)" checkout -- lean/Generated 2>/dev/null
